@@ -3,4 +3,6 @@ From LP Require Import Num C19_Model.
 Extraction Language OCaml.
 Extraction "C19_m.ml" workload range lists_equal combine_lists flatten_list list_contains find_indices
   sub_list transpose_lists linear_space log_space closest_location arithmetic_mean variance
-  standard_deviation median weighted_average Z.of_nat Z.to_nat.
+  standard_deviation median weighted_average
+  range1 range2 lists_equal2 transpose_lists2 median_twice weighted_average_default
+  scale_data shift_data rotate_data scale_values scale_weights Z.of_nat Z.to_nat.
